@@ -199,7 +199,12 @@ func (b *c17CtxBody) Read(p []byte) (int, error) {
 func (b *c17CtxBody) Close() error { return b.rc.Close() }
 
 var c17Keys = []string{"id", "name", "kind", "ver", "user-id", "user.id", "ID", "id2", "k~1"}
-var c17Vals = []string{"42", "abc", "x-y_z", "a.b~c", "A+B", "k=v", "t:1", "u@h", "1,2", "0"}
+var c17Vals = []string{"42", "abc", "x-y_z", "a.b~c", "A+B", "k=v", "t:1", "u@h", "1,2", "0", "true", "7.5", "st-r", "-3", "", "..", "."}
+
+// c17Stringer is a path parameter value that renders itself
+type c17Stringer string
+
+func (v c17Stringer) String() string { return string(v) }
 
 func genC17(t *simrt.Tape, tier string) Scenario {
 	sc := &c17Scenario{probes: map[string]int{}, Params: map[string]string{}}
@@ -225,6 +230,12 @@ func genC17(t *simrt.Tape, tier string) Scenario {
 		segs = append(segs, "tail")
 	}
 	sc.Template = strings.Join(segs, "/")
+	if t.Bool(1, 6) {
+		// the template carries a query string, possibly with a placeholder of its own
+		k := c17Keys[t.Choose(4)]
+		used = append(used, k)
+		sc.Template += "?q={" + k + "}&z=1"
+	}
 	if sc.Template == "" {
 		sc.Template = "v1"
 	}
@@ -401,6 +412,16 @@ func (sc *c17Scenario) Run(s *simrt.Sim) {
 		params[k] = v
 		if n, err := strconv.Atoi(v); err == nil {
 			params[k] = n // non-string values are rendered with %v
+		}
+		switch v {
+		case "true":
+			params[k] = true
+		case "7.5":
+			params[k] = 7.5
+		case "st-r":
+			params[k] = c17Stringer(v)
+		case "-3":
+			params[k] = int64(-3)
 		}
 	}
 	if len(sc.Params) == 0 && sc.TornAt%2 == 0 {
